@@ -110,7 +110,7 @@ pub fn run(tier: &Tier) -> i32 {
     let c_o = Counters::default();
     let rep = &rep_o;
     let c = &c_o;
-    let cat = catalog(&CatOpts { disps: if tier.thorough { vec![2, -1, 0x7FFF, -0x8000] } else { vec![-1] }, all_regs: false });
+    let cat = catalog(&CatOpts { disps: if tier.thorough { vec![2, -1, 0x7FFF, -0x8000] } else { vec![-1] }, all_regs: tier.thorough });
     let errs = AtomicU64::new(0);
     let cap: usize = if tier.thorough { 30_000 } else { 700 };
     cat.par_iter().for_each(|i| {
